@@ -70,6 +70,58 @@ def table_case(ops, meta, entries):
         meta[len(ops) - 1] = exp or None
 
 
+def add_e2e_suite(c, samples):
+    """CONNECT packets through the real connection manager with the REAL credential store behind it: accepted exactly when
+    the store matches (CONNACK 0, session in the entry's mount point), otherwise a refusal CONNACK (4) and no session,
+    subscription or will; also in an order that exercises whatever the store remembers between calls (a successful login
+    followed by candidates whose user+password concatenation is the same)."""
+    from checks.brokerlib import monitor_for
+    rng = c.rng
+    ops, exp, cases = [], {}, 0
+    tables = []
+    for _ in range(6 if c.tier == "quick" else 60):
+        n = rng.randint(1, 5)
+        users = rng.sample(USERS, n)
+        tables.append(("file", [(u, "pw" + u, rng.choice([None, "", "m1", "tenant" + u[0]])) for u in users]))
+    tables += [("static", ("admin", "secret")), ("static", ("", "b")), ("static", ("", "")), ("static", ("a", ""))]
+    for kind, tab in tables:
+        ops.append("reset 1")
+        if kind == "file":
+            ops.append("authfile " + " ".join(line(*e) for e in tab))
+            entries = tab
+        else:
+            ops.append(f"authstatic {tab[0] or '_'} {tab[1] or '_'}")
+            entries = [(tab[0], tab[1], None)]
+        cands = []
+        for (u, p, m) in entries:
+            cands += [(u, p), (u, p + "x"), (p, u), (u, ""), ("", p), (u, p)]
+            # same concatenation as a successful login, split elsewhere
+            cat = u + p
+            for cut in {0, 1, len(u) + 1 if len(u) + 1 <= len(cat) else 0, max(0, len(u) - 1), len(cat)}:
+                cands.append((cat[:cut], cat[cut:]))
+        cands += [("mallory", "pw1"), ("", "")]
+        if len(cands) > 14:
+            cands = cands[:8] + rng.sample(cands[8:], 6)
+        sess = []
+        for k, (u, p) in enumerate(cands):
+            name = f"h{k}"
+            will = rng.choice(["-", "w/t:01:1:0"])
+            ops.append(f"connectas {name} 0 cid{k} {tok(u)} {tok(p)} 60 {will}")
+            mounts = {(m if m else "_default") for (eu, ep, m) in entries if eu == u and ep == p}
+            if mounts:
+                exp[len(ops) - 1] = ({name: ["connack(0)"]}, "rejected-despite-match")
+                sess.append(f"S,S{name},cid{k},{sorted(mounts)[0]},1,{'-' if will == '-' else will}")
+            else:
+                exp[len(ops) - 1] = ({name: ["connack(4)"]}, "admitted-or-no-refusal-connack")
+            cases += 1
+        ops.append("state 0")
+        exp[len(ops) - 1] = ("[" + " ".join(sorted(sess)) + "] [] [] [" + " ".join(sorted(x.split(",")[1] for x in sess)) + "]", "session-for-rejected-connect")
+    ops.append("bye")
+    c.run_suite(Suite("connect-through-real-store", "broker", ops, monitor_for(exp), {"cases": cases, "nontrivial": cases},
+                      resets=("reset",), retry_args=["200"]), timeout=1800)
+    samples.append({"suite": "connect-through-real-store", "ops": [o[:140] for o in ops[:6]]})
+
+
 def main(tier=None):
     c = Check("C16", ["Wasp.Properties.C16"], tier)
     c.build()
@@ -116,6 +168,7 @@ def main(tier=None):
                 ops.append(f"sauth {u or '_'} {p or '_'}")
                 meta[len(ops) - 1] = {"_default"} if (u == cu and p == cp) else None
     c.run_suite(Suite("static-store", "auth", ops, mk_monitor(meta), {"cases": len(meta), "nontrivial": len(meta)}, resets=("static",), exhaustive=True))
+    add_e2e_suite(c, samples)
     c.assumptions += ["SHA-256 fingerprints are injective (model: abstract injective H)", "encoding/csv splits well-formed lines at ':' (fields without quotes/colons)"]
     return c.finish(samples=samples,
                     rule="case = one credential table (one ordering of its lines) queried with every candidate derived from it: present, "
